@@ -59,9 +59,9 @@ Theorem C29_files_sorted_but_one : forall ms : list sfile,
 Proof. exact sort_files_sorted_but_one. Qed.
 Print Assumptions C29_files_sorted_but_one.
 
-(** ---- 4. Scores are bounded: with boost weights in [0, W] (W >= 1), symbol-kind scores within the
-    generated maximum, repository rank in uint16 and a document number below the document count,
-    every match score lies in [0, base_bound * W] and every file score in [0, file_bound W];
+(** ---- 4. Scores are bounded: with boost weights <= W (W >= 1; negative weights allowed), symbol-kind
+    scores within the generated maximum, repository rank in uint16 and a document number below the document
+    count, every match score lies in [0, base_bound * W] and every file score in [0, file_bound W];
     for W <= 2^960 that is below 2^1023, i.e. finite in binary64. *)
 Theorem C29_scores_bounded : forall dbg f W,
   fin_ok W f -> 1 <= W ->
@@ -79,6 +79,35 @@ Proof.
 Qed.
 Print Assumptions C29_bounded_is_finite.
 
+(** ---- 4b. Finite for EVERY boost a query can carry.  A Boost value is a binary64 number copied unchecked
+    from the wire, and nested boosts multiply: the product [w : xweight] above a match is any rational, +-Inf
+    or NaN.  index/eval.go:setScoreWeight caps it at maxBoostWeight (generated constant; repair /repo b74fc3f —
+    before it an infinite or overflowing product made scores +Inf, and NaN under BM25, see NOTES.md).  With the
+    effective weight [eff_weight w] — no hypothesis on w at all — every match score (before and after the
+    in-file order term, which adds at most scoreLineOrderFactor) and every file score is non-negative and below
+    2^1023, the binary64 overflow threshold.  The finiteness hypothesis of 4 ("weights <= W <= 2^960") is thereby
+    discharged for all inputs: W = maxBoostWeight. *)
+Theorem C29_scores_finite_for_every_boost : forall dbg f,
+  fin_x f ->
+  0 <= snd (fst (score_file dbg f)) <= file_bound c_maxBoostWeight /\
+  Forall (fun m => 0 <= fst (match_score dbg m) <= base_bound * c_maxBoostWeight) (fi_matches f) /\
+  file_bound c_maxBoostWeight < inject_Z (2 ^ 1023) /\
+  base_bound * c_maxBoostWeight + c_scoreLineOrderFactor < inject_Z (2 ^ 1023).
+Proof. exact scores_finite_every_boost. Qed.
+Print Assumptions C29_scores_finite_for_every_boost.
+
+(** the cap: +Inf and everything above maxBoostWeight become maxBoostWeight, weights up to the cap are
+    unchanged, NaN and -Inf (which can never win a comparison in scoreLine / boostScore) act as 0 *)
+Theorem C29_effective_weight : forall w : xweight,
+  eff_weight w <= c_maxBoostWeight /\
+  (forall q, w = XFin q -> q <= c_maxBoostWeight -> eff_weight w = q) /\
+  eff_weight XPosInf = c_maxBoostWeight /\ eff_weight XNaN = 0 /\ eff_weight XNegInf = 0.
+Proof.
+  intros w. split; [apply eff_weight_le|]. split; [|repeat split].
+  intros q E H. subst w. now apply eff_weight_fin_small.
+Qed.
+Print Assumptions C29_effective_weight.
+
 (** ---- 5. BM25 (tfScore, the sum over the term frequencies, boostScore; term-frequency extraction is
     not modelled): every term contributes a value in [0, k+1], so with a line/file length ratio L >= 0,
     non-negative term frequencies and boost weights <= W the score lies in [0, (k+1) * #terms * W]:
@@ -89,6 +118,13 @@ Theorem C29_bm25_bounded : forall L tfs ws W,
   0 <= bm25_score L tfs ws <= (c_bm25_k + 1) * inject_Z (Z.of_nat (length tfs)) * W.
 Proof. exact bm25_score_bounds. Qed.
 Print Assumptions C29_bm25_bounded.
+
+(** BM25 for every boost a query can carry (no hypothesis on the weights): finite, and a zero sum stays 0 *)
+Theorem C29_bm25_finite_for_every_boost : forall L tfs (xws : list xweight),
+  0 <= L -> Forall (fun f => (0 <= f)%Z) tfs ->
+  0 <= bm25_score L tfs (map eff_weight xws) <= (c_bm25_k + 1) * inject_Z (Z.of_nat (length tfs)) * c_maxBoostWeight.
+Proof. exact bm25_score_finite_every_boost. Qed.
+Print Assumptions C29_bm25_finite_for_every_boost.
 
 Theorem C29_bm25_term_order_irrelevant : forall L tfs tfs',
   Permutation tfs tfs' -> bm25_sum L tfs == bm25_sum L tfs'.
@@ -124,3 +160,21 @@ Definition ex_scored : list sfile :=
 Example ex_promotion :
   map sf_id (sort_desc sf_score ex_scored) = [1; 2; 3; 4]%N /\ map sf_id (sort_files ex_scored) = [1; 2; 4; 3]%N.
 Proof. split; vm_compute; reflexivity. Qed.
+(* non-vacuity of 4b: a file whose candidates carry an infinite, a NaN, a negative and an ordinary product *)
+Definition ex_cand_x (w : xweight) : cand := {| c_sb := true; c_eb := true; c_kind := KSym true true (Some 700); c_weight := eff_weight w |}.
+Definition ex_fin_x : fin :=
+  ex_fin 1 [[(1%Z, [ex_cand_x XPosInf; ex_cand_x XNaN])]; [(3%Z, [ex_cand_x (XFin (-2)); ex_cand_x (XFin 2)])]; [(4%Z, [ex_cand_x XNegInf])]].
+Example ex_fin_x_ok : fin_x ex_fin_x.
+Proof.
+  unfold fin_x, ex_fin_x, ex_fin; simpl. split; [|split; lia]. unfold cands_x.
+  repeat (cbv beta; simpl snd; first [apply Forall_nil | apply Forall_cons]);
+    (split; [unfold kind_ok; simpl; unfold Qle; simpl; lia | eexists; reflexivity]).
+Qed.
+(* the infinite boost scores base * cap on line 1; the NaN / -Inf / negative candidates never win: line 4 scores 0 *)
+Example ex_fin_x_scores' :
+  Qeq_bool (fst (match_score false [(1%Z, [ex_cand_x XPosInf; ex_cand_x XNaN])])) (8200 * c_maxBoostWeight) = true /\
+  Qeq_bool (fst (match_score false [(4%Z, [ex_cand_x XNegInf])])) 0 = true /\
+  Qeq_bool (fst (match_score false [(3%Z, [ex_cand_x (XFin (-2)); ex_cand_x (XFin 2)])])) 16400 = true.
+Proof. vm_compute. repeat split. Qed.
+Example ex_bm25_zero_times_inf : bm25_score (3 # 2) [0]%Z (map eff_weight [XPosInf]) == 0.
+Proof. vm_compute. reflexivity. Qed.
